@@ -88,7 +88,9 @@ package reftable
 //@   ensures[keeps-the-key-it-is-given] {C01, C02} ok ==> r.RefName == key
 //@   ensures[l3:reads-the-update-index-first] {C01} ok && vlen(buf) >= 1 ==> r.UpdateIndex == vval(buf)
 //@   ensures[l3:accepts-a-one-hash-record] {C01} valType == 1 && vlen(buf) >= 1 && len(buf) >= vlen(buf) + hashSize ==> ok && n == vlen(buf) + hashSize
-//@   ensures[l3:reads-the-hash] {C01} ok && valType == 1 && vlen(buf) >= 1 ==> len(r.Value) == hashSize && (forall k int :: 0 <= k && k < hashSize ==> r.Value[k] == old(buf[vlen(buf) + k]))
+//@   ensures[l3:accepts-a-two-hash-record] {C01} valType == 2 && vlen(buf) >= 1 && len(buf) >= vlen(buf) + 2 * hashSize ==> ok && n == vlen(buf) + 2 * hashSize
+//@   ensures[l3:reads-the-second-hash] {C01} ok && valType == 2 && vlen(buf) >= 1 ==> len(r.TargetValue) == hashSize && (forall k int :: 0 <= k && k < hashSize ==> r.TargetValue[k] == old(buf[vlen(buf) + hashSize + k]))
+//@   ensures[l3:reads-the-hash] {C01} ok && (valType == 1 || valType == 2) && vlen(buf) >= 1 ==> len(r.Value) == hashSize && (forall k int :: 0 <= k && k < hashSize ==> r.Value[k] == old(buf[vlen(buf) + k]))
 //@   ensures ok ==> 0 < n && n <= len(buf)
 
 //@ func (*indexRecord).decode
@@ -191,6 +193,11 @@ package reftable
 //@   requires ref(r.Value) != ref(buf)
 //@   modifies buf[0:len(buf)], pv, anyof(*RefRecord), anyof([]byte)
 
+//@ func lemmaRefTwoHashRoundTrip
+//@   props C01
+//@   requires ref(r.Value) != ref(buf) && ref(r.TargetValue) != ref(buf)
+//@   modifies buf[0:len(buf)], pv, anyof(*RefRecord), anyof([]byte)
+
 // C01 layer 3 (index records): see verif_lemmas.go
 //@ func lemmaIndexValueRoundTrip
 //@   props C01 C02
@@ -287,6 +294,8 @@ package reftable
 //@   ensures fits ==> 1 <= n && n <= len(buf)
 //@   ensures[l3:update-index-comes-first] {C01} fits && r.UpdateIndex < 4611686018427387904 ==> vlen(buf) >= 1 && vlen(buf) <= 9 && vval(buf) == r.UpdateIndex
 //@   ensures[l3:length-of-a-one-hash-record] {C01} fits && r.UpdateIndex < 4611686018427387904 && len(r.Value) > 0 && len(r.TargetValue) == 0 && len(r.Target) == 0 ==> n == vlen(buf) + len(r.Value)
+//@   ensures[l3:length-of-a-two-hash-record] {C01} fits && r.UpdateIndex < 4611686018427387904 && len(r.Value) > 0 && len(r.TargetValue) > 0 && len(r.Target) == 0 ==> n == vlen(buf) + len(r.Value) + len(r.TargetValue)
+//@   ensures[l3:the-second-hash-follows] {C01} fits && r.UpdateIndex < 4611686018427387904 && len(r.Value) > 0 && len(r.TargetValue) > 0 && len(r.Target) == 0 && ref(r.Value) != ref(buf) && ref(r.TargetValue) != ref(buf) ==> (forall k int :: vlen(buf) + len(r.Value) <= k && k < vlen(buf) + len(r.Value) + len(r.TargetValue) ==> buf[k] == r.TargetValue[k - vlen(buf) - len(r.Value)])
 //@   ensures[l3:the-hash-follows] {C01} fits && r.UpdateIndex < 4611686018427387904 && len(r.Value) > 0 && len(r.Target) == 0 && ref(r.Value) != ref(buf) ==> (forall k int :: vlen(buf) <= k && k < vlen(buf) + len(r.Value) ==> buf[k] == r.Value[k - vlen(buf)])
 
 //@ func (*indexRecord).encode
